@@ -343,8 +343,12 @@ def parse_obs(lines):
                 d['image'] = ' '.join(toks[1:])
             elif toks[0] == 'report' and toks[1] == 'total':
                 d['report total'] = ' '.join(toks[2:])
-            else:
+            elif len(toks) >= 2:
                 d[toks[0] + ' ' + toks[1]] = ' '.join(toks[2:])
+            else:
+                # a line the harness never prints whole (the process died in the middle of it): kept, so that the
+                # differ reports it against the model instead of the check failing to parse
+                d['malformed ' + toks[0]] = ''
     return d
 
 
